@@ -29,37 +29,18 @@ structure DeepExpect where
   allow : List String     -- kinds admitted for this loop (justified below)
   deriving DecidableEq, Repr
 
-/-- One line per unsorted `range` over a map. A loop whose own text **or whose callees** changed
-matches no line. -/
+/-- Rows for the loops whose body the translator cannot describe: the hash of the alpha-normalised
+loop text plus the normalised text of every module function it transitively calls (callees numbered in
+discovery order, so renaming a helper does not matter), and the effect kinds admitted. A described
+loop needs no row: the descriptor pass makes a loop opaque as soon as its closure has one of the kinds. -/
 def deepExpected : List DeepExpect := [
-  ⟨"asa/device.go", "isValidOutput", "validOutput", 0, "ba44d3138e82a0b9", []⟩,
-  ⟨"cisco/config.go", "Config.MergeSpoc", "b.lookup", 0, "8a9f2ef744181606", []⟩,
-  ⟨"cisco/config.go", "Config.MergeSpoc", "isReferenced", 0, "dbe338dad97cceb6", []⟩,
-  ⟨"cisco/diff.go", "State.diffConfig", "comb[prefix]", 0, "ad238789429f2e0c", []⟩,
-  ⟨"cisco/diff.go", "State.diffSomeAnchors/onlyAnchorNames", "m", 0, "3e84955dce9f0b53", []⟩,
-  ⟨"cisco/diff.go", "State.diffASAACLs/addACL", "pos", 0, "8f3d15f401b7a4ce", []⟩,
-  ⟨"cisco/diff.go", "State.diffASAACLs/delACL", "pos", 0, "0aa4f68e5f3893d6", []⟩,
-  ⟨"cisco/diff.go", "State.deleteUnused", "s.a.lookup", 0, "7218f44ce29f39be", []⟩,
-  ⟨"cisco/diff.go", "State.deleteUnused", "m", 0, "4ba04269d4f21275", []⟩,
-  ⟨"cisco/diff.go", "State.deleteUnused", "toDelete", 0, "068c339dcc26e65f", []⟩,
-  ⟨"cisco/diff.go", "State.deleteUnused", "toDelete", 1, "f65b87b04586b6e9", []⟩,
-  ⟨"cisco/diff.go", "State.generateNamesForTransfer", "s.b.lookup", 0, "8c3996041247907e", []⟩,
-  ⟨"cisco/diff.go", "State.generateNamesForTransfer", "m", 0, "8c23f225a0b4b7cb", []⟩,
-  ⟨"cisco/diff.go", "sortGroups", "cf.lookup[\"object-group\"]", 0, "6395d1ea26ee3486", []⟩,
-  ⟨"cisco/diff.go", "State.ignoreCryptoGDOI", "rm", 0, "c5f575c32be34800", []⟩,
+  ⟨"cisco/diff.go", "State.diffConfig", "comb[prefix]", 0, "f8688036282f6f85", []⟩,
   -- addDefaults → addDefaultObject → lookupCmd → matchCmd: `panic("Incomplete string …")` sits under the
   -- template token `"`, which no toplevel command type has (`quote_token_only_in_subcommands`).
-  ⟨"cisco/parse.go", "parser.addDefaults", "defaultObjects", 0, "bc776bef5b5bd9d0", ["abort"]⟩,
-  ⟨"cisco/parse.go", "postprocessParsed/stripPFSDefault", "lookup[prefix]", 0, "abb0f3481b8c7d0e", []⟩,
-  ⟨"cisco/parse.go", "postprocessParsed/stripMetric", "lookup[prefix]", 0, "27656f5f09f31db5", []⟩,
-  ⟨"cisco/parse.go", "postprocessParsed", "lookup[\"crypto ca certificate map\"]", 0, "e7303b37b46ec64b", []⟩,
-  ⟨"cisco/parse.go", "postprocessParsed", "lookup[\"username\"]", 0, "7c85c3e0b52cb470", []⟩,
-  ⟨"cisco/parse.go", "postprocessParsed", "lookup[\"tunnel-group\"]", 0, "5e788ebeab593e3c", []⟩,
-  ⟨"linux/parse.go", "normalizeIPTables", "pairs", 0, "647b114a2d7c7eaf", []⟩,
-  ⟨"nsx/diff.go", "genUniqGroupNames", "a", 0, "b68557b2bac816d8", []⟩,
+  ⟨"cisco/parse.go", "parser.addDefaults", "defaultObjects", 0, "5412020535c91a64", ["abort"]⟩,
   -- LoadConfig → insert → `warn("Ignoring key …")` only in the default case of `switch key`; every key
   -- of the literal defaultVals is a case of that switch (`default_keys_known`).
-  ⟨"program/config.go", "LoadConfig", "defaultVals", 0, "60dbc02a258996b0", ["out"]⟩
+  ⟨"program/config.go", "LoadConfig", "defaultVals", 0, "695a181648feb0c3", ["out"]⟩
 ]
 
 /-! ## `setName` of generateNamesForTransfer: the first free `-DRC-<index>` of the command's own kind -/
@@ -92,11 +73,11 @@ structure SourceExpect where
 /-- The sources of nondeterminism (other than map iteration) in functions reachable from the
 planning roots. A new one (a goroutine, time.Now, os.ReadDir, a new comparator sort, …) matches no line. -/
 def planningSources : List SourceExpect := [
-  ⟨"cisco/diff.go", "(*cisco.State).deleteUnused", "sort-unstable-cmp-frommap", "7d1857be19f78493", .totalOrderOnMapKeys⟩,
-  ⟨"cisco/diff.go", "cisco.sortGroups", "sort-unstable-cmp", "809eb629bf15deb7", .deterministicInput⟩,
-  ⟨"cisco/diff.go", "cisco.sortRoutes", "sort-unstable-cmp", "3922a2e2688ec78f", .deterministicInput⟩,
-  ⟨"linux/diff.go", "linux.diffRoutes", "sort-unstable-cmp", "da9e661a672f60a3", .deterministicInput⟩,
-  ⟨"nsx/diff.go", "nsx.sortRules", "sort-unstable-cmp", "7b07ff34f945d8d6", .deterministicInput⟩,
+  ⟨"cisco/diff.go", "(*cisco.State).deleteUnused", "sort-unstable-cmp-frommap", "efd714d158b37f17", .totalOrderOnMapKeys⟩,
+  ⟨"cisco/diff.go", "cisco.sortGroups", "sort-unstable-cmp", "e93a55b43f412a92", .deterministicInput⟩,
+  ⟨"cisco/diff.go", "cisco.sortRoutes", "sort-unstable-cmp", "07e093bbb3fd0cd9", .deterministicInput⟩,
+  ⟨"linux/diff.go", "linux.diffRoutes", "sort-unstable-cmp", "3415ba614b467be2", .deterministicInput⟩,
+  ⟨"nsx/diff.go", "nsx.sortRules", "sort-unstable-cmp", "ab710dddfe67c019", .deterministicInput⟩,
   ⟨"mytime/now.go", "mytime.Now", "env", "93de79ab01dc32a8", .logFileNameOnly⟩,
   ⟨"mytime/now.go", "mytime.Now", "time", "7b328aec13d4d7ab", .logFileNameOnly⟩,
   ⟨"program/config.go", "program.LoadConfig", "env", "c3323886ceb36501", .input⟩
